@@ -429,7 +429,7 @@ def reader_obligations(eng, configs=CONFIGS, methods=("_read_next", "read"), gho
             s2 = st.fork(); tag = f"__c{next(_calls)}"
             rd2, buf2 = mk_reader(s2, cfg, shape == "frame", tag=tag, eng=e)
             # same objects identities are not needed: read() reaches the reader through self only; move the new state onto self
-            s2.heap[rd.oid] = (s2.heap[rd2.oid][0], s2.heap[rd2.oid][1]); del s2.heap[rd2.oid]
+            adopt(s2, rd, rd2)
             assume_inv(s2, rd, completed=result)
             v1 = reader_view(s2, rd)
             s2.pc += [v1["pl"] <= v0["pl"] - 1, v1["pl"] >= 0, v1["gt"] == v0["gt"], v1["gle"] == v0["gle"]]
@@ -440,6 +440,8 @@ def reader_obligations(eng, configs=CONFIGS, methods=("_read_next", "read"), gho
             s2.pc += [g for _, g in transition_goals(cfg, fr0 is not None, old, s2, rd, result)]
             # exactly one octet is consumed unless the reader went to hunt mode (then everything up to the next flag is skipped)
             if shape == "frame": s2.pc.append(v1["pl"] == v0["pl"] - 1)
+            # ghost: which frame this call completed, and where (the caller may hand it over before or after it opens the next frame)
+            s2.ghost["completed_frame"] = v1["fr"] if result else None; s2.ghost["completed_at"] = v1["gp"] if result else None
             if e.feasible(s2): outs.append((s2, result))
         return outs
     eng.contracts[R + "_read_next"] = Contract(apply=apply_read_next)
@@ -458,13 +460,12 @@ def reader_obligations(eng, configs=CONFIGS, methods=("_read_next", "read"), gho
                 st.locals = {"self": rd, "data_chunk": SBytes(G, cn, gt0)}        # (ghost) the chunk is the next segment of the stream
                 appended = []
                 def hook(st_, lst, item, ctx_, node_, rd=rd, appended=appended):
-                    # obligations on every frame put into the result list: it is the reader's current frame in the 'completed' state
-                    ok = isinstance(item, Ref) and st_.getf(rd, "_frame") == item
+                    # every frame put into the result list is the frame the latest _read_next() completed (its completed-state invariant is part of that contract), handed over once -
+                    # whether the reader opens its next frame before or after the append does not matter
+                    ok = isinstance(item, Ref) and item == st_.ghost.get("completed_frame") and all(item != x for x in st_.ghost.get("appended", ()))
                     ctx_.oblige(st_, "post:returned object is the frame just completed", z3.BoolVal(ok), node_)
                     if ok:
-                        for name, g in reader_inv(st_, rd, completed=True): ctx_.oblige(st_, f"post:returned frame: {name}", g, node_)
-                        v = reader_view(st_, rd)
-                        st_.setf(rd, "$g_last_end", SInt(v["gp"] - 1))      # ghost update: index of the closing flag
+                        st_.setf(rd, "$g_last_end", SInt(st_.ghost["completed_at"] - 1))      # ghost update: index of the closing flag
                         st_.ghost["appended"] = st_.ghost.get("appended", ()) + (item,)
                 eng.list_append_hook = hook
                 def havoc(st_h, e, rd=rd, cfg=cfg, gt0=gt0, cn=cn):
@@ -472,7 +473,7 @@ def reader_obligations(eng, configs=CONFIGS, methods=("_read_next", "read"), gho
                     for shape in (False, True):
                         s2 = st_h.fork(); tag = f"__l{next(_calls)}"
                         rd2, buf2 = mk_reader(s2, cfg, shape, tag=tag, eng=e)
-                        s2.heap[rd.oid] = (s2.heap[rd2.oid][0], s2.heap[rd2.oid][1]); del s2.heap[rd2.oid]
+                        adopt(s2, rd, rd2)
                         s2.ghost["appended"] = ()
                         outs.append(s2)
                     return outs
@@ -583,7 +584,7 @@ def segment_lemma_obligations(eng, cfg):
     def havoc(st_h, e):
         s2 = st_h.fork(); tag = f"__g{next(_calls)}"
         rd2, buf2 = mk_reader(s2, cfg, True, tag=tag, eng=e)
-        s2.heap[rd.oid] = (s2.heap[rd2.oid][0], s2.heap[rd2.oid][1]); del s2.heap[rd2.oid]
+        adopt(s2, rd, rd2)
         return [s2]
     def inv(st_, e):
         v = reader_view(st_, rd); kk = to_int(st_.locals["k"])
